@@ -452,6 +452,8 @@ def check_mermaid(ctx, prop, lib, nodes, idmap, names, par, ch, s, stop, hidden,
         ctx.count("%s.to_file" % prop)
         path = os.path.join(to_file_dir, "m-%d.md" % os.getpid())
         lines_now = list(ex)
+        with open(path, "w", encoding="utf-8") as fh:
+            fh.write("stale line of an earlier, longer export\n" * 400)  # the target exists already and is longer
         ex.to_file(path)
         with open(path, encoding="utf-8") as fh:
             text = fh.read()
@@ -514,6 +516,8 @@ def check_dotfile(ctx, prop, lib, node, workdir, cfg):
     ctx.count("%s.to_dotfile" % prop)
     ex = DotExporter(node)
     path = os.path.join(workdir, "d-%d.dot" % os.getpid())
+    with open(path, "w", encoding="utf-8") as fh:
+        fh.write("stale line of an earlier, longer export\n" * 400)
     ex.to_dotfile(path)
     with open(path, encoding="utf-8") as fh:
         text = fh.read()
